@@ -843,6 +843,18 @@ def _short(v):
 LOCAL_NAMES = ["Foo", "Bar", "helper", "CONST", "hh", "osp", "typing", "List", "Optional", "Dict", "sub", "T", "missing"]
 
 
+_GEN_REJECTS = [0]
+
+
+def _parses(src: str, mode: str = "eval") -> bool:
+    import ast
+    try:
+        ast.parse(src, mode=mode)
+    except SyntaxError:
+        return False
+    return True
+
+
 def gen_expr(rng, depth=0, ctx_yield=False):
     """source text of a random expression covering every ast expression node Griffe maps."""
     r = rng.random()
@@ -917,9 +929,15 @@ def gen_expr(rng, depth=0, ctx_yield=False):
     if k == 18:
         return f"({e()} {gens()})"
     if k == 19:
-        return rng.choice(["f'a{" + rng.choice(LOCAL_NAMES) + "}b{" + rng.choice(LOCAL_NAMES) + ".x!r}'",
-                           "f'{" + rng.choice(LOCAL_NAMES) + "!r:>{" + rng.choice(LOCAL_NAMES) + "}}'",
-                           "f'{" + e() + ":>10}{" + rng.choice(LOCAL_NAMES) + "!s}{{literal}}'"])
+        cands = ["f'a{" + rng.choice(LOCAL_NAMES) + "}b{" + rng.choice(LOCAL_NAMES) + ".x!r}'",
+                 "f'{" + rng.choice(LOCAL_NAMES) + "!r:>{" + rng.choice(LOCAL_NAMES) + "}}'",
+                 "f'{" + e() + ":>10}{" + rng.choice(LOCAL_NAMES) + "!s}{{literal}}'"]
+        src = rng.choice(cands)
+        if not _parses(src):
+            # a nested constant may contain the f-string's own quote, a brace or a colon that ends the field: not Python
+            _GEN_REJECTS[0] += 1
+            src = cands[0]
+        return src
     if k == 20:
         return f"(w := {e()})"
     if k == 21:
@@ -1096,6 +1114,16 @@ def gen_attribute(rng, indent, name):
 
 
 def gen_module_source(rng, pkg, is_init, with_findings=True):
+    """a generated module that `ast.parse` accepts (a rejected draw is counted and drawn again)."""
+    for _ in range(20):
+        text = _gen_module_source(rng, pkg, is_init, with_findings)
+        if _parses(text, "exec"):
+            return text
+        _GEN_REJECTS[0] += 1
+    return "class Foo: pass\nclass Bar(Foo): pass\ndef helper(*a, **k): return a\nhh = helper\nsub = None\n"
+
+
+def _gen_module_source(rng, pkg, is_init, with_findings=True):
     out = []
     if rng.random() < 0.6:
         out += gen_docstring(rng, "", fixpoint_only=not with_findings)
@@ -1198,6 +1226,9 @@ def write_package(ctx, rng, with_findings=True, namespace=False, no_docstrings=F
         files = {f: strip_docstrings(t) for f, t in files.items()}
     for f, text in files.items():
         (d / f).write_text(text, encoding="utf-8")
+    if _GEN_REJECTS[0]:
+        ctx.count("generated_sources_rejected_by_ast_parse", _GEN_REJECTS[0])
+        _GEN_REJECTS[0] = 0
     return root, name, files
 
 
